@@ -7,6 +7,7 @@ CONSTANTS
   Algo = "asis"
   SeedCopyreg = "live"
   InitGuard = FALSE
+  KwOnlyOK = FALSE
   SharedCtx = FALSE
   CtxCopy = TRUE
   Scns = {}
@@ -17,7 +18,7 @@ INVARIANT Inv_C13_InconsistentRejected
 INVARIANT AsIs_C13_NonOptInEqualsPickle
 INVARIANT AsIs_C13_RemoteFalseIsStd
 INVARIANT Inv_C13_SamePath
-INVARIANT Inv_C14_Once
+INVARIANT AsIs_C14_Once
 INVARIANT Inv_C14_Shape
 INVARIANT Inv_C14_ViaSetstate
 INVARIANT AsIs_C14_LoadsSucceeds
